@@ -180,7 +180,7 @@ class TldApi(object):
 
 def discrepancy(api, rules, labels, form):
     """First disagreement between the API and the reference on one host."""
-    if rules.exc and rules.ambiguous(labels):
+    if (rules.exc or rules.alt is not None) and rules.ambiguous(labels):
         return None
     url = render(labels, form)
     exp = rules.split(labels)
